@@ -102,6 +102,22 @@ def run(ctx, factor):
                 m = model.outcome(ctx.driver.call({"op": "run", "doc": model.y2j(doc), "kind": "binary" if binary else "assembly",
                                                    "text": out if binary else text, "mode": kw["mode"], "addrOnly": False, "ret": kw["ret"]}))
                 judge(name, res, {"fault": name, "rule": doc, "input": "binary" if binary else "assembly", "mode": kw}, m)
+    # a rule whose verdict needs its address range: wrongly-typed bounds (an unquoted 0x401000 is a YAML integer)
+    range_rule = {"config": {"valid_addr_range": {"min": "0x401000", "max": "0x401fff"}}, "pattern": [{"call": ["valid_addr"]}]}
+    for kw in modes:
+        b2 = impl.run_op(sc, range_rule, text, **kw)
+        if not (b2[0] == "ok" and b2[1]):
+            raise RuntimeError("fault-free baseline (address range) is not 'found': %r" % (b2,))
+    for name, bounds in [("range-bounds-are-integers", {"min": 0x401000, "max": 0x401fff}), ("range-min-is-an-integer", {"min": 4198400, "max": "0x401fff"}),
+                         ("range-max-is-null", {"min": "0x401000", "max": None}), ("range-min-is-a-list", {"min": ["0x401000"], "max": "0x401fff"}),
+                         ("range-bound-is-a-bool", {"min": "0x401000", "max": True}), ("range-max-missing", {"min": "0x401000"})]:
+        doc = copy.deepcopy(range_rule)
+        doc["config"]["valid_addr_range"] = bounds
+        for kw in modes:
+            res = impl.run_op(sc, doc, text, **kw)
+            m = model.outcome(ctx.driver.call({"op": "run", "doc": model.y2j(doc), "kind": "assembly", "text": text, "mode": kw["mode"],
+                                               "addrOnly": False, "ret": kw["ret"]}))
+            judge(name, res, {"fault": name, "rule": doc, "input": "assembly", "mode": kw}, m)
     # file-level faults (rule, macro file, input), environment faults
     good_rule = sc.write(impl.dump_yaml(BASE_RULE), ".yaml")
     good_in = sc.write(text, ".s")
